@@ -106,6 +106,13 @@ func main() {
 	if *tier == "thorough" {
 		timeout = 300000
 	}
+	eng.workersPerHarness = *workers / len(sel)
+	if eng.workersPerHarness < 1 {
+		eng.workersPerHarness = 1
+	}
+	if eng.workersPerHarness > 8 && len(sel) > 1 {
+		eng.workersPerHarness = 8
+	}
 	results := make([]*HarnessResult, len(sel))
 	var wg sync.WaitGroup
 	sem := make(chan struct{}, *workers)
@@ -241,13 +248,11 @@ func writeEvidence(dir, prop, tier string, results []*HarnessResult, eng *Engine
 			queries[i] += r.Queries[i]
 		}
 		solveT += r.SolveTime
-		if r.exec != nil {
-			asserts += r.exec.nAsserts
-		}
+		asserts += r.Asserts
 		hinfo := map[string]interface{}{
 			"name": r.H.Name, "entry": r.H.Pkg + "." + r.H.Func, "paths": len(r.Paths), "path_status": r.Status,
 			"ssa_instructions": r.Instr, "queries_unsat": r.Queries[0], "queries_sat": r.Queries[1], "queries_unknown": r.Queries[2],
-			"solver_s": r.SolveTime.Seconds(), "wall_s": r.Wall.Seconds(), "reach_tags": r.Reached,
+			"solver_s": r.SolveTime.Seconds(), "wall_s": r.Wall.Seconds(), "queries_escalated_to_fresh_solver": r.Escalated, "reach_tags": r.Reached,
 			"bounds":     map[string]interface{}{"unroll": r.H.Unroll, "bufmax": r.H.BufMax, "maxpaths": r.H.MaxPaths, "params": r.H.Params, "onlimit": r.H.OnLimit, "maporder": r.H.MapOrder},
 			"violations": len(r.Violations), "note": r.H.Note,
 		}
@@ -266,10 +271,8 @@ func writeEvidence(dir, prop, tier string, results []*HarnessResult, eng *Engine
 		if r.H.Note != "" {
 			assumptions[r.H.Name+": "+r.H.Note] = true
 		}
-		if r.exec != nil {
-			for f := range r.exec.funcsSeen {
-				funcs[f] = true
-			}
+		for f := range r.Funcs {
+			funcs[f] = true
 		}
 	}
 	var fl []string
@@ -326,10 +329,7 @@ func initSkips(results []*HarnessResult) []string {
 	seen := map[string]bool{}
 	var out []string
 	for _, r := range results {
-		if r.exec == nil {
-			continue
-		}
-		for _, s := range r.exec.initSkips {
+		for s := range r.InitSkips {
 			if !seen[s] {
 				seen[s] = true
 				out = append(out, s)
